@@ -648,6 +648,41 @@ fn exercise<S: SigT, V: ValT, St: SigStore<S, V>>(c: &mut Case, mut store: St, c
             )
         });
     }
+    // the borrowed iterator through the skipping adaptors of Iterator (nth after some next
+    // calls, skip, step_by): the shards reached this way are those of a plain iteration
+    if let Some(first) = borrowed_runs.first() {
+        let norm = |s: &Vec<(S, V)>| -> Vec<(S, V)> {
+            let mut s = s.clone();
+            s.sort();
+            s
+        };
+        let plain: Vec<Vec<(S, V)>> = first.iter().map(norm).collect();
+        let nsh = plain.len();
+        let pre = c.rng().random_range(0..3usize).min(nsh);
+        let k = c.rng().random_range(0..4usize);
+        let step = c.rng().random_range(1..4usize);
+        let sk = c.rng().random_range(0..nsh + 2);
+        if let Some((a, b, d)) = c.guard("iter_skipping", || {
+            let a: Option<Vec<(S, V)>> = {
+                let mut it = shard_store.iter();
+                for _ in 0..pre {
+                    it.next();
+                }
+                it.nth(k).map(|s| s.iter().map(|sv| (sv.sig, sv.val)).collect())
+            };
+            let b: Vec<Vec<(S, V)>> = shard_store.iter().step_by(step).take(nsh + 2).map(|s| s.iter().map(|sv| (sv.sig, sv.val)).collect()).collect();
+            let d: Vec<Vec<(S, V)>> = shard_store.iter().skip(sk).take(nsh + 2).map(|s| s.iter().map(|sv| (sv.sig, sv.val)).collect()).collect();
+            (a, b, d)
+        }) {
+            c.check("iter_skipping", a.as_ref().map(norm) == plain.get(pre + k).cloned(), || {
+                format!("{} next() calls then nth({}) gives a shard of {:?} pairs, a plain iteration has {:?} pairs in shard {}; {}", pre, k, a.as_ref().map(|x| x.len()), plain.get(pre + k).map(|x| x.len()), pre + k, ctx())
+            });
+            let want: Vec<Vec<(S, V)>> = plain.iter().step_by(step).cloned().collect();
+            c.check("iter_skipping", b.iter().map(norm).collect::<Vec<_>>() == want, || format!("iter().step_by({}) yields {} shards of sizes {:?}, a plain iteration stepped by hand {:?}; {}", step, b.len(), b.iter().map(|x| x.len()).collect::<Vec<_>>(), want.iter().map(|x| x.len()).collect::<Vec<_>>(), ctx()));
+            let want: Vec<Vec<(S, V)>> = plain.iter().skip(sk).cloned().collect();
+            c.check("iter_skipping", d.iter().map(norm).collect::<Vec<_>>() == want, || format!("iter().skip({}) yields {} shards of sizes {:?}, expected {:?}; {}", sk, d.len(), d.iter().map(|x| x.len()).collect::<Vec<_>>(), want.iter().map(|x| x.len()).collect::<Vec<_>>(), ctx()));
+        }
+    }
     let consumed = c.guard("into_iter", move || collect_shards(shard_store.into_iter(), usize::MAX));
     if let Some(got) = consumed {
         check_iteration(c, "into_iter", cfg, &got, &model, &all_sorted, &sizes, false, &ctx);
